@@ -53,6 +53,17 @@ CLAIMED["C01"] = dict(
         "parse correspondence suite (5000+ cases per run, 0 mismatches required) and an independent conformance oracle on the "
         "implementation's outputs. Field-level content of data classes and function parameters are handled under C05/C08.",
    technique="Coq proof by induction over the parse calculus + model/implementation correspondence", design="§8 C01")
+CLAIMED["C04"] = dict(
+   text="Machine-checked proof (Coq), partial: C04_types_raise_parse_errors_only — for every constrained/logical type inside wf_ty "
+        "(Spec/Wf.v) and every input, an exception leaving the parse is a ParseError (every nested failure is wrapped or collected by "
+        "the construct around it: proved construct by construct for Rule.parse, the args parsers, validators, contains and the four "
+        "combinators); C04_dataclass_raises_parse_errors_only for ANY data-class declaration on string-keyed input; the timestamp "
+        "normalisation loop terminates for every finite timestamp. Outside wf_ty a refutation is proved (known finding). "
+        "Five genuine defects found while building this proof were repaired (fix: commits).",
+   note="Trusted: as C01. Partial: termination in general, resource exhaustion (huge exponents: known finding), C-level recursion "
+        "limits and the converters outside the model (dates, uuid, enum, complex) are judged by the hostile suite under a CPU "
+        "watchdog, not proved; 'preserve' item/key policies are outside the theorem (raw elements may be unhashable).",
+   technique="Coq proof per construct of the parse calculus + hostile-input oracle and correspondence on the implementation", design="§8 C04")
 NOT_YET = {}
 for i in range(1, 21):
     pid = "C%02d" % i
